@@ -63,6 +63,6 @@ PROP = {
                     "destination and source have equal extents and no element in common (the property's quantifier); the flat array_ref copy may be memmove for trivially copyable elements, which differs from the modelled forward loop only for overlapping ranges",
                     "assignment from an initializer list of rows / an owning array is checked only when the rows are non-empty (an empty owning array collapses its extents and is asserted against by the library)"],
     "rule": STORE_RULE,
-    "level_text": "Theorems (all D >= 1, all extents, any two well-formed layouts): the transcribed element-copy loop of subarray::operator= (elements() = other.elements(), std::copy over elements_iterator_t ++) returns, for equal extents, injective destination and disjoint images, a memory with m'(dst[idx]) = m(src[idx]) at every index tuple and m' = m at every address outside the destination's image; the same for the converting overload, elements() assignment, element_moved (source cells left moved-from), swap, 1-D fill / initializer-list / range / assign, D >= 2 assignment from an initializer list of rows and from a range of ranges (assign_rows_exact, assign_range_rows_exact: element (i, rest) receives row i's element at rest), the flat array_ref copy and 0-D assignment; key lemma elemit_kth: ++ from elements().begin() visits the addresses of boxIndices in canonical order for every well-formed layout; for destinations reachable by C01 operations well-formedness and injectivity are discharged (assign_exact_reachable). Descriptors are unchanged by construction. Tied to /repo by a differential run that dumps the whole guarded storage after every real assignment.",
+    "level_text": "Theorems (all D >= 1, all extents, any two well-formed layouts): the transcribed element-copy loop of subarray::operator= (elements() = other.elements(), std::copy over elements_iterator_t ++) returns, for equal extents, injective destination and disjoint images, a memory with m'(dst[idx]) = m(src[idx]) at every index tuple and m' = m at every address outside the destination's image; the same for the converting overload, elements() assignment, element_moved (source cells left moved-from), swap, 1-D fill / initializer-list / range / assign, D >= 2 assignment from an initializer list of rows and from a range of ranges (assign_rows_exact, assign_range_rows_exact: element (i, rest) receives row i's element at rest), the flat array_ref copy and 0-D assignment; key lemma elemit_kth: ++ from elements().begin() visits the addresses of boxIndices in canonical order for every well-formed layout; for destinations reachable by C01 operations well-formedness and injectivity are discharged (assign_exact_reachable). Descriptors are unchanged by construction. Tied to /repo by a differential run that dumps the whole guarded storage after every real assignment. The assignment / swap operators of views, element ranges and array_refs (gen_store.py, 34 functions with the comparisons) are regenerated from /repo's source on every run and proved equal to the model (GenTieStore.lean); code_assign_exact states the exactness theorem about the regenerated operator.",
     "level_note": "Trusted: Lean kernel (+propext, Classical.choice, Quot.sound), the transcription MultiModel/{Iter,Store}.lean validated by the correspondence run, the std algorithm contracts, Int for ptrdiff_t. Overlapping source/destination is outside the quantifier.",
 }
